@@ -13,16 +13,24 @@ T3(p) == EP(p) \o N(M1(p)) \o "." \o N(p[2]) \o "." \o N(p[3])
 T2(p) == EP(p) \o N(M1(p)) \o "." \o N(p[2])
 T1(p) == EP(p) \o N(M1(p))
 TA(p, ar) == IF ar = 1 THEN T1(p) ELSE IF ar = 2 THEN T2(p) ELSE T3(p)
-\* how an ecosystem spells release levels 1, 2 (pre-releases) and 4 (post)
-PreText(e, r) ==
-  CASE e \in {"npm", "cargo", "hex", "conan", "nuget"} -> IF r = 1 THEN "-alpha.1" ELSE "-alpha.2"
+\* how an ecosystem spells release levels 1, 2 (pre-releases) and 4 (above the final release, below the next patch).
+\* Pre-releases come in two families: lower-case "alpha" and upper-case "RC" (SemVer identifiers are case-sensitive
+\* and ASCII-ordered, so RC.1 < RC.2 < final just as alpha.1 < alpha.2 < final).
+PreText(e, r, fam) ==
+  CASE e \in {"npm", "cargo", "hex", "conan", "nuget"} ->
+         IF fam = "RC" THEN (IF r = 1 THEN "-RC.1" ELSE "-RC.2") ELSE (IF r = 1 THEN "-alpha.1" ELSE "-alpha.2")
     [] e = "maven" -> IF r = 1 THEN "-alpha-1" ELSE "-alpha-2"
     [] e = "gem"   -> IF r = 1 THEN ".alpha.1" ELSE ".alpha.2"
     [] e = "composer" -> IF r = 1 THEN "-alpha1" ELSE "-alpha2"
     [] e = "pypi"  -> IF r = 1 THEN "a1" ELSE "a2"
-VText(e, p) == T3(p) \o (IF p[4] \in {1, 2} THEN PreText(e, p[4]) ELSE IF p[4] = 4 THEN ".post1" ELSE "")
+Fams(e) == IF e \in {"npm", "cargo", "hex"} THEN {"alpha", "RC"} ELSE {"alpha"}
+\* level 4: pypi's post release; for the ecosystems with more than three numeric components a fourth component
+\* (X.Y.Z.65536 lies above X.Y.Z and below X.Y.(Z+1); the value sits just beyond 16 bits on purpose)
+PostText(e) == IF e = "pypi" THEN ".post1" ELSE ".65536"
+VTextF(e, p, fam) == T3(p) \o (IF p[4] \in {1, 2} THEN PreText(e, p[4], fam) ELSE IF p[4] = 4 THEN PostText(e) ELSE "")
+VText(e, p) == VTextF(e, p, "alpha")
 \* which release levels an ecosystem's probes may have (composer: stable only; pypi: final or post)
-ProbeLevels(e) == CASE e = "composer" -> {3} [] e = "pypi" -> {3, 4} [] OTHER -> {1, 2, 3}
+ProbeLevels(e) == CASE e = "composer" -> {3, 4} [] e = "pypi" -> {3, 4} [] e \in {"nuget", "maven", "gem", "conan"} -> {1, 2, 3, 4} [] OTHER -> {1, 2, 3}
 
 -----------------------------------------------------------------------------
 (* bases *)
@@ -49,8 +57,9 @@ PessHi(b, ar, r) == IF ar <= 2 THEN V(b[1] + 1, 0, 0, r) ELSE V(b[1], b[2] + 1, 
 PrefLo(b, ar, r) == IF ar = 1 THEN V(b[1], 0, 0, r) ELSE V(b[1], b[2], 0, r)
 PrefHi(b, ar, r) == IF ar = 1 THEN V(b[1] + 1, 0, 0, r) ELSE V(b[1], b[2] + 1, 0, r)
 
-Vec(e, c, text, ivs, neg, probeBelowPre, probeHiPre) ==
-  [eco |-> e, construct |-> c, text |-> text, ivs |-> ivs, neg |-> neg, belowPre |-> probeBelowPre, hiPre |-> probeHiPre]
+VecF(e, c, text, ivs, neg, probeBelowPre, probeHiPre, fam) ==
+  [eco |-> e, construct |-> c, text |-> text, ivs |-> ivs, neg |-> neg, belowPre |-> probeBelowPre, hiPre |-> probeHiPre, fam |-> fam]
+Vec(e, c, text, ivs, neg, probeBelowPre, probeHiPre) == VecF(e, c, text, ivs, neg, probeBelowPre, probeHiPre, "alpha")
 
 \* a pre-release base: level 2 of the same numbers ("X.Y.Z-alpha.2")
 PreBase(b) == V(b[1], b[2], b[3], 2)
@@ -62,11 +71,11 @@ Npm ==
      {Vec(e, "caret" \o N(ar), "^" \o TA(b, ar), <<Iv(b, TRUE, CaretHi(b, ar, 0), FALSE)>>, FALSE, ar = 3, TRUE) : ar \in {3}, b \in B3}
   \cup {Vec(e, "caret2", "^" \o T2(b), <<Iv(b, TRUE, CaretHi(b, 2, 0), FALSE)>>, FALSE, FALSE, TRUE) : b \in B2}
   \cup {Vec(e, "caret1", "^" \o T1(b), <<Iv(b, TRUE, CaretHi(b, 1, 0), FALSE)>>, FALSE, FALSE, TRUE) : b \in B1}
-  \cup {Vec(e, "caret-pre", "^" \o VText(e, PreBase(b)), <<Iv(PreBase(b), TRUE, CaretHi(b, 3, 0), FALSE)>>, FALSE, TRUE, TRUE) : b \in B3}
+  \cup {VecF(e, "caret-pre", "^" \o VTextF(e, PreBase(b), fam), <<Iv(PreBase(b), TRUE, CaretHi(b, 3, 0), FALSE)>>, FALSE, TRUE, TRUE, fam) : b \in B3, fam \in Fams(e)}
   \cup {Vec(e, "tilde3", "~" \o T3(b), <<Iv(b, TRUE, TildeHi(b, 3, 0), FALSE)>>, FALSE, TRUE, TRUE) : b \in B3}
   \cup {Vec(e, "tilde2", "~" \o T2(b), <<Iv(b, TRUE, TildeHi(b, 2, 0), FALSE)>>, FALSE, FALSE, TRUE) : b \in B2}
   \cup {Vec(e, "tilde1", "~" \o T1(b), <<Iv(b, TRUE, TildeHi(b, 1, 0), FALSE)>>, FALSE, FALSE, TRUE) : b \in B1}
-  \cup {Vec(e, "tilde-pre", "~" \o VText(e, PreBase(b)), <<Iv(PreBase(b), TRUE, TildeHi(b, 3, 0), FALSE)>>, FALSE, TRUE, TRUE) : b \in B3}
+  \cup {VecF(e, "tilde-pre", "~" \o VTextF(e, PreBase(b), fam), <<Iv(PreBase(b), TRUE, TildeHi(b, 3, 0), FALSE)>>, FALSE, TRUE, TRUE, fam) : b \in B3, fam \in Fams(e)}
   \cup {Vec(e, "xrange1", T1(b) \o w, <<Iv(PrefLo(b, 1, 3), TRUE, PrefHi(b, 1, 0), FALSE)>>, FALSE, FALSE, TRUE) : b \in B1, w \in {".x", ".X"}}
   \cup {Vec(e, "xrange2", T2(b) \o w, <<Iv(PrefLo(b, 2, 3), TRUE, PrefHi(b, 2, 0), FALSE)>>, FALSE, FALSE, TRUE) : b \in B2, w \in {".x", ".X"}}
   \cup {Vec(e, "hyphen", T3(b) \o " - " \o T3(V(b[1] + 1, b[2], 5, 3)), <<Iv(b, TRUE, V(b[1] + 1, b[2], 5, 3), TRUE)>>, FALSE, TRUE, FALSE) : b \in B3}
@@ -79,7 +88,7 @@ Cargo ==
      {Vec(e, "caret3", "^" \o T3(b), <<Iv(b, TRUE, CaretHi(b, 3, 3), FALSE)>>, FALSE, TRUE, FALSE) : b \in B3}
   \cup {Vec(e, "caret2", "^" \o T2(b), <<Iv(b, TRUE, CaretHi(b, 2, 3), FALSE)>>, FALSE, FALSE, FALSE) : b \in B2}
   \cup {Vec(e, "caret1", "^" \o T1(b), <<Iv(b, TRUE, CaretHi(b, 1, 3), FALSE)>>, FALSE, FALSE, FALSE) : b \in B1}
-  \cup {Vec(e, "caret-pre", "^" \o VText(e, PreBase(b)), <<Iv(PreBase(b), TRUE, CaretHi(b, 3, 3), FALSE)>>, FALSE, TRUE, FALSE) : b \in B3}
+  \cup {VecF(e, "caret-pre", "^" \o VTextF(e, PreBase(b), fam), <<Iv(PreBase(b), TRUE, CaretHi(b, 3, 3), FALSE)>>, FALSE, TRUE, FALSE, fam) : b \in B3, fam \in Fams(e)}
   \cup {Vec(e, "tilde3", "~" \o T3(b), <<Iv(b, TRUE, TildeHi(b, 3, 3), FALSE)>>, FALSE, TRUE, FALSE) : b \in B3}
   \cup {Vec(e, "tilde2", "~" \o T2(b), <<Iv(b, TRUE, TildeHi(b, 2, 3), FALSE)>>, FALSE, FALSE, FALSE) : b \in B2}
   \cup {Vec(e, "tilde1", "~" \o T1(b), <<Iv(b, TRUE, TildeHi(b, 1, 3), FALSE)>>, FALSE, FALSE, FALSE) : b \in B1}
@@ -119,7 +128,7 @@ Hex ==
   LET e == "hex" IN
      {Vec(e, "pess3", "~>" \o sp \o T3(b), <<Iv(b, TRUE, PessHi(b, 3, 3), FALSE)>>, FALSE, TRUE, FALSE) : b \in B3, sp \in {"", " "}}
   \cup {Vec(e, "pess2", "~>" \o sp \o T2(b), <<Iv(b, TRUE, PessHi(b, 2, 3), FALSE)>>, FALSE, FALSE, FALSE) : b \in B2, sp \in {"", " "}}
-  \cup {Vec(e, "pess-pre", "~>" \o VText(e, PreBase(b)), <<Iv(PreBase(b), TRUE, PessHi(b, 3, 3), FALSE)>>, FALSE, TRUE, FALSE) : b \in B3}
+  \cup {VecF(e, "pess-pre", "~>" \o VTextF(e, PreBase(b), fam), <<Iv(PreBase(b), TRUE, PessHi(b, 3, 3), FALSE)>>, FALSE, TRUE, FALSE, fam) : b \in B3, fam \in Fams(e)}
 
 Pypi ==
   LET e == "pypi" IN
